@@ -14,7 +14,7 @@ BASE = dict(
     SrcSet={"none"}, PlaceSet={"last"}, TitleSet={False}, SublineSet={False}, NewPageSet={False},
     PbRowSet={"column"}, PbHdrSet={True}, DivSet={"none"}, FontSet={1}, SizeSet={9}, PaperSet={"letter"},
     PgHFSet={0}, PFSet={"double"}, PLSet={"double"}, BFSet={"single"}, BLSet={"single"}, UTSet={""}, UBSet={""},
-    NDataSet={2}, GPosSet={"first"}, RelWSet={"equal"}, HdrWSet={False}, UShapeSet={"scalar"}, DupSet={False},
+    NDataSet={2}, GPosSet={"first"}, RelWSet={"equal"}, HdrWSet={False}, UShapeSet={"scalar"}, DupSet={False}, HdrTupleSet={False},
 )
 # deviation flags: what the code under test does today / what the properties describe
 IMPL = dict(ReserveDefaultHeader=False, BudgetContinuation=False, ChargeRenderedOnly=False, BorderByPage=True, TopOverrideByPosition=True)
@@ -211,8 +211,8 @@ PROPS = {
                                  FootSet={"none", "table"}, SrcSet={"none", "para"}, PlaceSet=PL3, TitleSet={True}, SublineSet={True}, PbHdrSet=NP)),
                    dict(consts=C(NSet={0}, Heights={1}, NrowSet={3}, Strategies=S3, HdrSet={"none", "default"}, FootSet=FS3, SrcSet=FS3, PlaceSet=PL3,
                                  TitleSet={True}, SublineSet={True})),
-                   dict(consts=C(NSet={0, 1, 5, 8}, Heights={1}, NrowSet={3, 4, 6, 20}, Strategies=S3, HdrSet={"none", "default", "explicit2"},
-                                 FootSet=FS3, SrcSet=FS3, PlaceSet=PL3, TitleSet=NP, SublineSet=NP, PbHdrSet=NP,
+                   dict(consts=C(NSet={0, 1, 5, 8}, Heights={1}, NrowSet={3, 4, 6, 20}, Strategies=S3, HdrSet={"none", "default", "explicit", "explicit2"},
+                                 FootSet=FS3, SrcSet=FS3, PlaceSet=PL3, TitleSet=NP, SublineSet=NP, PbHdrSet=NP, HdrWSet=NP, HdrTupleSet=NP,
                                  PaperSet={"letter", "letterm", "landscape", "a4", "a4land", "custom"}, PgHFSet={0, 1, 2, 3}), simulate=1200)],
             thorough=[dict(consts=C(NSet={1, 5}, Heights={1}, NrowSet={3, 4, 20}, Strategies=S3, HdrSet={"none", "default"}, FootSet=FS3, SrcSet=FS3,
                                     PlaceSet=PL3, TitleSet={True}, SublineSet={True}, PbHdrSet=NP)),
@@ -221,7 +221,7 @@ PROPS = {
                       dict(consts=C(NSet={0, 1, 5, 12}, Heights={1, 2}, NrowSet={3, 4, 6, 20}, Strategies=ALL_STRAT,
                                     HdrSet={"none", "default", "explicit", "explicit2"}, FootSet=FS3, SrcSet=FS3, PlaceSet=PL3, TitleSet=NP,
                                     SublineSet=NP, PbHdrSet=NP, PaperSet={"letter", "letterm", "landscape", "a4", "a4land", "custom"},
-                                    PgHFSet={0, 1, 2, 3}), simulate=12000)]),
+                                    PgHFSet={0, 1, 2, 3}, HdrWSet=NP, HdrTupleSet=NP), simulate=12000)]),
         nontrivial=lambda c, pred: pred is not None and pred and pred[-1]["p"] >= 2,
     ),
     "C07": dict(
@@ -239,13 +239,13 @@ PROPS = {
                                  FootSet=FS3, SrcSet=FS3, PlaceSet=PL3, **STY1)),
                    dict(consts=C(NSet={1, 4, 6}, Heights={1, 2}, NrowSet={3, 4, 7, 30}, Strategies=S3,
                                  HdrSet={"none", "explicit", "default", "explicit2"}, FootSet=FS3, SrcSet=FS3, PlaceSet=PL3, NewPageSet=NP,
-                                 PbRowSet=PR, PbHdrSet=NP, UShapeSet={"scalar", "col", "matrix"}, **STY), simulate=800)],
+                                 PbRowSet=PR, PbHdrSet=NP, UShapeSet={"scalar", "col", "matrix", "rowpat"}, **STY), simulate=800)],
             thorough=[dict(consts=C(NSet={4}, Heights={1}, NrowSet={3, 4, 7}, Strategies={"plain", "pageby"}, HdrSet={"none", "explicit"},
                                     FootSet=FS3, SrcSet=FS3, PlaceSet=PL3, PFSet={"double"}, PLSet={"thick"}, BFSet={"dotted"}, BLSet={"dashed"},
                                     UTSet={"", "wavy"}, UBSet={"", "triple"})),
                       dict(consts=C(NSet={1, 4, 6, 13}, Heights={1, 2}, NrowSet={3, 4, 7, 30}, Strategies=ALL_STRAT, LevelSet={1, 2},
                                     HdrSet={"none", "explicit", "default", "explicit2"}, FootSet=FS3, SrcSet=FS3, PlaceSet=PL3, NewPageSet=NP,
-                                    PbRowSet=PR, PbHdrSet=NP, UShapeSet={"scalar", "col", "matrix"}, **STY), simulate=12000)]),
+                                    PbRowSet=PR, PbHdrSet=NP, UShapeSet={"scalar", "col", "matrix", "rowpat"}, **STY), simulate=12000)]),
         nontrivial=lambda c, pred: pred is not None and pred and pred[-1]["p"] >= 2,
     ),
     "C08": dict(
@@ -255,11 +255,11 @@ PROPS = {
             quick=[dict(consts=C(NSet={3}, Heights={1}, NrowSet={3, 30}, Strategies=ALL_STRAT, LevelSet={1, 2}, NewPageSet=NP, PbRowSet=PR,
                                  HdrSet={"none", "default", "explicit", "explicit2"}, FootSet={"none", "table"}, SrcSet={"none", "table"},
                                  NDataSet={1, 2, 3, 4, 6}, GPosSet={"first", "middle", "last", "split"}, RelWSet={"equal", "asc", "mixed", "tenths"},
-                                 HdrWSet=NP, PaperSet={"letter", "landscape", "custom"}), simulate=1500)],
+                                 HdrWSet=NP, HdrTupleSet=NP, PaperSet={"letter", "landscape", "custom"}), simulate=1500)],
             thorough=[dict(consts=C(NSet={3, 9}, Heights={1}, NrowSet={3, 30}, Strategies=ALL_STRAT, LevelSet={1, 2, 3}, NewPageSet=NP, PbRowSet=PR,
                                     HdrSet={"none", "default", "explicit", "explicit2"}, FootSet={"none", "table"}, SrcSet={"none", "table"},
                                     NDataSet={1, 2, 3, 4, 6, 9, 12}, GPosSet={"first", "middle", "last", "split"},
-                                    RelWSet={"equal", "asc", "mixed", "tenths"}, HdrWSet=NP,
+                                    RelWSet={"equal", "asc", "mixed", "tenths"}, HdrWSet=NP, HdrTupleSet=NP,
                                     PaperSet={"letter", "landscape", "a4", "custom"}), simulate=15000)]),
         nontrivial=lambda c, pred: c.get("ndata", 2) + (c["nlev"] if pipeline.has_pb(c) else 0) >= 2,
     ),
@@ -571,6 +571,7 @@ def space_size(k):
                  "PFSet", "PLSet", "BFSet", "BLSet", "GPosSet", "RelWSet"):
         flat *= len(k[name])
     flat *= sum((len(k.get("DupSet", {False})) if nd >= 2 else 1) for nd in k["NDataSet"])
+    # (hdrtuple multiplies only explicit headers with own widths; it is used in simulated families only)
     # the shape of the user borders is a dimension only when a user border is set
     ush = len(k.get("UShapeSet", {"scalar"}))
     flat *= sum((ush if (a or b) else 1) for a in k["UTSet"] for b in k["UBSet"])
